@@ -140,9 +140,9 @@ fn parse_dot(text: &str) -> Result<Dot, String> {
         if let Some(a) = arrow {
             let u = head[..a].trim().trim_matches('"').parse::<usize>().map_err(|_| format!("edge statement {st:?}"))?;
             let v = head[a + 2..].trim().trim_matches('"').parse::<usize>().map_err(|_| format!("edge statement {st:?}"))?;
-            dot.edges.push((u, v, attrs));
+            dot.edges.push((crate::keys::kout(u), crate::keys::kout(v), attrs));
         } else if let Ok(k) = head.trim_matches('"').parse::<usize>() {
-            dot.nodes.push((k, attrs));
+            dot.nodes.push((crate::keys::kout(k), attrs));
         } else if head.contains('=') {
             dot.graph_attrs.extend(parse_attrs(head)?);
         } else {
@@ -547,6 +547,7 @@ fn step<F: Flavour>(st: &mut St<F>, op: &COp, stats: &mut Stats) -> Result<(), (
 }
 
 fn run<F: Flavour>(sc: &ContSc, stats: &mut Stats) -> Option<(Violation, usize)> {
+    crate::keys::set_style(crate::keys::style_from(sc.hash_seed));
     hashseam::set_seed(sc.hash_seed);
     let solo = Solo::new();
     if F::SYNC {
